@@ -40,7 +40,7 @@ func wgPairing(c *an.Ctx, s *sched, rule string) {
 	// the Add that dominates the launch
 	var add ssa.Instruction
 	for _, ci := range an.CallsIn(f, fnWgAdd) {
-		if an.Dominates(ci, s.launch) && s.inner.Blocks[ci.Block()] {
+		if an.Dominates(ci, s.launch) && (s.launchFn != s.loopFn || s.inner.Blocks[ci.Block()]) {
 			add = ci
 		}
 	}
